@@ -35,7 +35,9 @@ COMPONENTS = {
         "bits.utils.der_encode_sig / der_decode_sig / privkey_int / point, bits.pem ASN.1 codec, bits.crypto.hash256",
     ],
     "stub": [
-        "thread scheduler for the concurrent stratum (2-3 simulated caller threads, line-level pre-emption inside ecmath/utils/keys, package re-imported per run)","entropy source: secrets.randbelow/token_bytes/randbits/choice and os.urandom, scripted by a per-operation tape (boundary draws 0, 1, n-1, n-2; repeated draws; chosen nonces)"],
+        "thread scheduler for the concurrent stratum (2-3 simulated caller threads, line-level pre-emption inside ecmath/utils/keys, package re-imported per run)",
+        "process fork: a real os.fork() of the simulated signing process at planned points of the history; the child gets its own seeded entropy stream (the kernel never hands two processes the same bytes), signs, reports through a pipe and exits",
+        "entropy source: secrets.randbelow/token_bytes/randbits/choice and os.urandom, scripted by a per-operation tape (boundary draws 0, 1, n-1, n-2; repeated draws; chosen nonces)"],
 }
 RULE = (
     "one evaluation = one seeded history of signing operations by 1-4 simulated signers (plain-message, preimage and raw-digest modes; digests incl. 0, n-1, n, n+1, 2^256-1 and digests "
@@ -111,6 +113,8 @@ def _s_targets(rng):
 
 
 def plan(seed, tier="quick", index=0):
+    if sub_rng(seed, "fork-stratum").random() < FORK_P:
+        return _plan_fork(seed)
     rng = sub_rng(seed, "plan")
     lo, hi = TIERS.get(tier, TIERS["quick"])["ops"]
     nops = rng.randrange(lo, hi + 1)
@@ -189,6 +193,171 @@ def plan(seed, tier="quick", index=0):
             op["digest"] = hex(z)
         ops.append(op)
     return {"property": PROPERTY, "seed": seed, "stratum": stratum, "signers": signers, "ops": ops}
+
+
+import os as _os
+
+FORK_P = float(_os.environ.get("C01_FORK_P", "0.07"))  # share of runs in the fork stratum (the self-tests force it)
+
+
+def _plan_fork(seed):
+    """The signing process forks (a pre-forking server, multiprocessing with the fork start
+    method) at arbitrary points of a signing history; parent and children go on signing.  All
+    userland state is duplicated by the fork; the kernel's entropy source is not - it hands
+    different bytes to different processes."""
+    rng = sub_rng(seed, "plan-fork")
+    nsign = rng.choice([1, 1, 2, 3])
+    signers = [hex(_key(rng, rng.choice(["small", "high", "random", "random"]))) for _ in range(nsign)]
+
+    def seg(lo, hi):
+        out = []
+        for _ in range(rng.randrange(lo, hi + 1)):
+            mode = rng.choice(["sig", "sig", "raw"])
+            op = {"signer": rng.randrange(nsign), "mode": mode, "flag": rng.choice(FLAGS), "msg": rng.getrandbits(256).to_bytes(32, "big").hex()}
+            if mode == "raw":
+                op["digest"] = hex(rng.getrandbits(256))
+            out.append(op)
+        return out
+
+    # parent segments separated by fork points; one child per fork point
+    nforks = rng.choice([1, 1, 2])
+    parent = [seg(0, 3) if rng.random() < 0.5 else seg(1, 2)] + [seg(1, 3) for _ in range(nforks)]
+    children = [seg(1, 3) for _ in range(nforks)]
+    return {"property": PROPERTY, "seed": seed, "stratum": "fork", "signers": signers, "parent": parent, "children": children, "ops": []}
+
+
+def _execute_fork(sc, keep_events):
+    import json
+    import os
+    import signal
+
+    from sim import callersim
+
+    mods()
+    bits, (ecmath, keys, utils) = callersim.fresh_bits()
+    res = RunResult()
+    res.stratum = "fork"
+    log = EventLog(keep=keep_events)
+    faults, probes = res.faults, res.probes
+    ent = SimEntropy(log, sub_rng(sc["seed"], "entropy"))
+    signers = [int(x, 16) for x in sc["signers"]]
+    viols = []
+
+    def segment(who, ops):
+        """Sign `ops`; returns JSON-able records [who, i, signer, z, r, s, error]."""
+        out = []
+        for i, op in enumerate(ops):
+            d = signers[op["signer"]]
+            msg = bytes.fromhex(op["msg"])
+            if op["mode"] == "raw":
+                z_in = int(op["digest"], 16)
+            else:
+                z_in = int.from_bytes(hashlib.sha256(hashlib.sha256(msg + op["flag"].to_bytes(4, "little")).digest()).digest(), "big")
+            ent.begin_op([])
+            try:
+                if op["mode"] == "raw":
+                    r, s = ecmath.sign(d, z_in)
+                    der = utils.der_encode_sig(r, s)
+                else:
+                    der = bits.sig(d.to_bytes(32, "big"), msg, op["flag"])[:-1]
+                if not DER.is_strict_der(der + b"\x01"):
+                    out.append([who, i, op["signer"], hex(z_in % N), None, None, "der-not-strict " + der.hex()])
+                    continue
+                r, s = DER.parse(der)
+                out.append([who, i, op["signer"], hex(z_in % N), hex(r), hex(s), None])
+            except EntropyHang as e:
+                out.append([who, i, op["signer"], hex(z_in % N), None, None, f"hang {e}"])
+            except Exception as e:
+                out.append([who, i, op["signer"], hex(z_in % N), None, None, f"raised {type(e).__name__}: {e}"[:200]])
+        return out
+
+    records = []
+    draws = []  # everything every process drew from its source
+    with EntropySeam(ent, [ecmath, keys, utils]):
+        records += segment("parent-0", sc["parent"][0])
+        for c, child_ops in enumerate(sc["children"]):
+            rfd, wfd = os.pipe()
+            pid = os.fork()
+            if pid == 0:
+                # ---- child: all library state is inherited; its kernel entropy is its own
+                try:
+                    os.close(rfd)
+                    signal.alarm(300)
+                    ent.rng = sub_rng(sc["seed"], f"entropy-child-{c}")
+                    ent.log = EventLog(keep=False)
+                    n0 = len(ent.history)
+                    out = {"records": segment(f"child-{c}", child_ops), "draws": [hex(v) for v in ent.history[n0:]]}
+                    data = json.dumps(out).encode()
+                except BaseException as e:  # noqa
+                    data = json.dumps({"error": f"{type(e).__name__}: {e}"[:300]}).encode()
+                try:
+                    while data:
+                        k = os.write(wfd, data)
+                        data = data[k:]
+                finally:
+                    os._exit(0)
+            os.close(wfd)
+            faults.hit("process-fork")
+            buf = b""
+            while True:
+                chunk = os.read(rfd, 65536)
+                if not chunk:
+                    break
+                buf += chunk
+            os.close(rfd)
+            os.waitpid(pid, 0)
+            try:
+                got = json.loads(buf.decode())
+            except ValueError:
+                raise HarnessError(f"forked child {c} returned no result ({len(buf)} bytes)")
+            if "error" in got:
+                raise HarnessError(f"forked child {c}: {got['error']}")
+            records += got["records"]
+            draws += [int(v, 16) for v in got["draws"]]
+            log.add(c, "fork", "child-done", (len(got["records"]), len(got["draws"])))
+            records += segment(f"parent-{c + 1}", sc["parent"][c + 1])
+    draws += ent.history
+    sigs = []
+    for who, i, signer, z, r, s_, err in records:
+        where = f"{who} op={i}"
+        if err:
+            clause = "nontermination" if err.startswith("hang") else "der-not-strict" if err.startswith("der") else "sign-raised"
+            viols.append(Violation(clause, where, err + " (forking process)"))
+            continue
+        z, r, s_ = int(z, 16), int(r, 16), int(s_, 16)
+        log.add(i, who, "sig", (hex(r)[:18], hex(s_)[:18]))
+        if not (1 <= r < N and 1 <= s_ < N):
+            viols.append(Violation("range", where, f"r={r:#x} s={s_:#x}"))
+        elif s_ > N // 2:
+            viols.append(Violation("high-s", where, f"s={s_:#x}"))
+        if not EC.ecdsa_verify(EC.mul(signers[signer]), z, r, s_):
+            viols.append(Violation("invalid-signature", where, f"reference verifier rejects r={r:#x} s={s_:#x} z={z:#x} (forking process)"))
+        sigs.append((where, signers[signer], z, r))
+    source_repeated = len(set(draws)) < len(draws)
+    for a in range(len(sigs)):
+        for b in range(a + 1, len(sigs)):
+            A, B = sigs[a], sigs[b]
+            if A[3] != B[3] or (A[1], A[2]) == (B[1], B[2]):
+                continue
+            if source_repeated:
+                probes.hit("repeat-draw-exempted")
+                continue
+            viols.append(Violation("nonce-reuse", f"{A[0]} / {B[0]}", f"same r={A[3]:#x} for different (key, digest) in a process and its fork child although no source repeated a draw"))
+    if any(w.startswith("child") for w, *_ in records):
+        probes.hit("signed-in-fork-child")
+    seen = set()
+    for v in viols:
+        kk = (v.clause, v.key)
+        if kk not in seen:
+            seen.add(kk)
+            res.violations.append(v.to_json())
+    res.nontrivial = True
+    res.digest = log.digest()
+    res.steps = len(records)
+    res.stats["signatures"] = len(sigs)
+    res.stats["events"] = log.events if keep_events else None
+    res.features = {"stratum": "fork"}
+    return res
 
 
 def _plan_concurrent(seed, rng, signers, msgs):
@@ -383,6 +552,8 @@ def _digest_class(z):
 def execute(scenario, tape=None, keep_events=False):
     if scenario["stratum"] == "concurrent":
         return _execute_concurrent(scenario, tape, keep_events)
+    if scenario["stratum"] == "fork":
+        return _execute_fork(scenario, keep_events)
     mods()  # (OpenSSL binding, logging off)
     from sim import callersim
 
@@ -398,6 +569,7 @@ def execute(scenario, tape=None, keep_events=False):
     ent.faults = faults
     viols = []
     records = []
+    buffered = False
     signers = [int(x, 16) for x in sc["signers"]]
     pubs = [(EC.mul(d), EC.pub_bytes(d, True), EC.pub_bytes(d, False)) for d in signers]
     with EntropySeam(ent, [ecmath, keys, utils]):
@@ -453,12 +625,18 @@ def execute(scenario, tape=None, keep_events=False):
                 continue
             drawn = ent.history[n_hist:]
             if not drawn and ent.op_draws == 0 and "RAISE" not in op["tape"]:
-                # no entropy consumed: must be a deterministic implementation
-                ent.begin_op(op["tape"])
-                rs2, sig2 = do_sign()
-                if (rs2, sig2) != (rs, sig):
-                    raise HarnessError("signing consumed no simulated entropy yet is not deterministic: entropy by-passes the seam")
-                probes.hit("deterministic-signing")
+                if ent.draws:
+                    # entropy was consumed earlier in this run but not by this call: the
+                    # implementation buffers what it reads from the source (legal)
+                    probes.hit("buffered-entropy")
+                    buffered = True
+                else:
+                    # no entropy consumed at all: must be a deterministic implementation
+                    ent.begin_op(op["tape"])
+                    rs2, sig2 = do_sign()
+                    if (rs2, sig2) != (rs, sig) and not ent.draws:
+                        raise HarnessError("signing consumed no simulated entropy yet is not deterministic: entropy by-passes the seam")
+                    probes.hit("deterministic-signing")
             # -- decode
             if sig is not None:
                 der, tail = sig[:-1], sig[-1]
@@ -570,6 +748,11 @@ def execute(scenario, tape=None, keep_events=False):
                 if A[4] is not None and B[4] is not None and (A[4] == B[4] or (A[4] + B[4]) % N == 0):
                     probes.hit("repeat-draw-exempted")
                     continue
+                if (buffered or A[4] is None or B[4] is None) and len(set(ent.history)) < len(ent.history):
+                    # an implementation that buffers its reads: which bytes fed which signature is
+                    # not observable, so any repetition in the source's output exempts the run
+                    probes.hit("repeat-draw-exempted")
+                    continue
                 viols.append(Violation("nonce-reuse", f"ops={A[0]},{B[0]}", f"same r={r:#x} for different (key, digest) although the source did not repeat: draws {A[4]} vs {B[4]}"))
     seen = set()
     for v in viols:
@@ -610,6 +793,20 @@ def selfcheck():
 def shrink_candidates(scenario, tape):
     import copy
 
+    if scenario["stratum"] == "fork":
+        if len(scenario["children"]) > 1:
+            for c in range(len(scenario["children"])):
+                sc = copy.deepcopy(scenario)
+                sc["children"].pop(c)
+                sc["parent"][c] += sc["parent"].pop(c + 1)
+                yield sc, tape
+        for name in ("parent", "children"):
+            for j, seg in enumerate(scenario[name]):
+                for i in range(len(seg) - 1, -1, -1):
+                    sc = copy.deepcopy(scenario)
+                    sc[name][j].pop(i)
+                    yield sc, tape
+        return
     ops = scenario["ops"]
     for i in range(len(ops) - 1, -1, -1):
         if len(ops) > 1:
@@ -626,4 +823,6 @@ def shrink_candidates(scenario, tape):
 
 
 def sample(scenario):
+    if scenario["stratum"] == "fork":
+        return {"stratum": "fork", "signers": scenario["signers"], "parent": [len(x) for x in scenario["parent"]], "children": [len(x) for x in scenario["children"]]}
     return {"stratum": scenario["stratum"], "signers": scenario["signers"], "ops": scenario["ops"][:4], "n_ops": len(scenario["ops"])}
